@@ -173,7 +173,7 @@ def run(ctx):
     ctx.layers.append({"layer": "free-running threads on one aggregator, real evaluator with class groups (single-instance + plain) and a decision "
                                 "threshold, rows = sequential run", "runs": n_thr, "exhaustive": False})
     # ---- the same with colliding names: every worker submits every name (barrier per name) on a slow disk (files take a few ms to close)
-    n_col = ctx.scale(2, 8)
+    n_col = ctx.scale(2, 4)
     for i in range(n_col):
         lines, seq, rep = A.thread_smoke(n_workers=4, n_subjects=8, collide=True)
         ctx.count({"thread_collide": i}, True)
